@@ -11,6 +11,7 @@ import (
 	"os/exec"
 	"reflect"
 	"sort"
+	"strconv"
 	"strings"
 	"sync"
 	"time"
@@ -476,7 +477,11 @@ func runSession(s *Session) *SessResult {
 				snaps.op(c, st.Arg, res)
 			}
 		case "sleep":
-			time.Sleep(30 * time.Millisecond)
+			d := 30 * time.Millisecond
+			if ms, err := strconv.Atoi(st.Arg); err == nil && ms > 0 {
+				d = time.Duration(ms) * time.Millisecond
+			}
+			time.Sleep(d)
 		case "waitwritten":
 			var n int
 			fmt.Sscan(st.Arg, &n)
@@ -644,6 +649,10 @@ func (c *Ctx) RunSession(s *Session) *SessResult {
 			fatal("worker: bad result %q", r.line)
 		}
 		mapStrings(reflect.ValueOf(&res), fromRunes)
+		if res.Wedged {
+			// the worker itself found the client unresponsive (a barrier timed out): same fast-fail as a worker timeout
+			c.Wedges++
+		}
 		return &res
 	case <-time.After(120 * time.Second):
 		c.W.cmd.Process.Kill()
